@@ -12,4 +12,4 @@ for k, v in sorted((d.get('per_harness') or {}).items()):
     print('  harness', k, v)
 for v in (d.get('violations') or [])[:int(sys.argv[2]) if len(sys.argv) > 2 else 6]:
     print('VIOL', v['harness'], v['label'], v.get('detail'), 'prefix', v['prefix'])
-    print('     ', [(n['label'], hex(x)) for n, x in zip(v['nondets'], v['values'])][:40])
+    print('     ', [(n['label'], hex(x)) for n, x in zip(v['nondets'] or [], v['values'] or [])][:40])
